@@ -24,6 +24,13 @@ class FrameViolation:
         self.site = site
 
 
+class NotRecognised:
+    """value of a source-pattern obligation whose pattern does not match the text under check: no obligation can be
+    generated (out of reach), which is different from a recognised structure that is wrong (FrameViolation)"""
+    def __init__(self, reason):
+        self.reason = reason
+
+
 class Ob:
     def __init__(self, name, status, **kw):
         self.name = name
@@ -353,6 +360,10 @@ def verify(h, repo, tier="quick", log=None):
                     oname = f"{pname}/{gname}"
                     if time.time() - t_case > 1.5 * case_budget:
                         raise Unsupported(f"time budget of this case used up inside path {pidx} (after {len(obs)} obligations)")
+                    if isinstance(goal, NotRecognised):
+                        stats["unsupported"] += 1
+                        obs.append(Ob(oname, "UNSUPPORTED", reason=goal.reason, case=case))
+                        continue
                     if isinstance(goal, FrameViolation):
                         obs.append(Ob(oname, "REFUTED", backend="frame-snapshot" if gname.startswith("frame") else "ast",
                                       kind="frame" if gname.startswith("frame") else ("cache-key" if gname.startswith("cache-key") else "alignment"),
